@@ -101,6 +101,19 @@ def nonzeros(t):
     return [[[int(x) for x in i], complex(t[tuple(i)])] for i in idx]
 
 
+def same_values(d, ref):
+    """value comparison of a contraction with its dense reference on INTEGER input tensors: exact as long as every
+    entry of the reference is an integer float64 represents exactly together with the rounding-free products leading
+    to it (|entry| < 2^50); beyond that (e.g. 30 Gaussian integers multiplied: 13^15 > 2^53) products of floats round,
+    so the entries are compared elementwise with a relative tolerance of 1e-12 (zero entries must still be exactly zero)."""
+    d, ref = np.asarray(d), np.asarray(ref)
+    if d.shape != ref.shape:
+        return False
+    if ref.size == 0 or float(np.max(np.abs(ref))) < 2.0 ** 50:
+        return bool(np.array_equal(d, ref))
+    return bool(np.all(np.abs(d - ref) <= 1e-12 * np.abs(ref)))
+
+
 def einsum_ref(tensors, legs, out):
     """independent dense reference: tensors[k] has leg labels legs[k] (hashable); output order `out`"""
     lab = {}
@@ -224,6 +237,290 @@ def rtree_coq(parents_children, root):
     return rec(root)
 
 
+# ---------------------------------------------------------------------------------------------------
+# identifier spellings
+# ---------------------------------------------------------------------------------------------------
+_PREFIX_ALPHABET = "abcdefghijklmnopqrstuvwxyzABCDEFXYZ0123456789_-. :/" + "äσ中"
+
+
+def random_prefix(rng, short=None):
+    """a legal identifier prefix: the usual short ones, the empty one, and arbitrary strings of 1..40 characters
+    (letters, digits, punctuation, blanks, non-ASCII); the documented identifiers are prefix + index, whatever the prefix"""
+    x = rng.random()
+    if x < 0.35:
+        return rng.choice(short or ["site", "node", "s", "q", "qubit"])
+    if x < 0.40:
+        return ""
+    n = rng.choice([1, 2, 3, 5, 8, 11, 13, 14, 15, 16, 17, 20, 24, 31, 32, 33, 40])
+    return "".join(rng.choice(_PREFIX_ALPHABET) for _ in range(n))
+
+
+# ---------------------------------------------------------------------------------------------------
+# histories on ONE object: build a model, grow the object through the library's public methods, build again
+# ---------------------------------------------------------------------------------------------------
+def _unit(shape):
+    t = np.zeros(tuple(shape), dtype=complex)
+    t[(0,) * len(shape)] = 1
+    return t
+
+
+class _Grower:
+    """Something the model builders accept as `ref_tree` / `structure` / `grid`, grown step by step. The harness keeps its
+    OWN record of the sites and bonds it asked for (documented identifiers; `parent`: id -> parent id in creation order)
+    and never reads them back from the library. Every tensor is a qubit (last leg, dimension 2) with spare dimension-1
+    legs for future neighbours (first-open-leg rule), so that growing is always legal."""
+    tree = True
+    maxn = 7
+
+    def __init__(self, rng):
+        self.rng = rng
+        self.parent = {}
+
+    def sites(self):
+        return list(self.parent)
+
+    def edges(self):
+        return [(p, c) for c, p in self.parent.items() if p is not None]
+
+    def deg(self, x):
+        return sum(1 for p in self.parent.values() if p == x) + (self.parent[x] is not None)
+
+    def structure(self):
+        return self.obj
+
+    def full(self):
+        return len(self.parent) >= self.maxn
+
+
+class _GrowTTN(_Grower):
+    """TreeTensorNetworkState via add_root / add_child_to_parent / add_parent_to_root; arbitrary identifiers"""
+
+    def __init__(self, rng):
+        super().__init__(rng)
+        from pytreenet.ttns.ttns import TreeTensorNetworkState
+        self.pre = random_prefix(rng)
+        self.k = 0
+        self.obj = TreeTensorNetworkState()
+        self.root = self._new()
+        self._add_root(self.root)
+        self.parent[self.root] = None
+
+    def _new(self):
+        self.k += 1
+        return f"{self.pre}{self.k - 1}"
+
+    def _add_root(self, nid):
+        from pytreenet.core.node import Node
+        self.obj.add_root(Node(identifier=nid), _unit([1, 1, 1, 1, 2]))
+
+    def _add_child(self, nid, p):
+        from pytreenet.core.node import Node
+        self.obj.add_child_to_parent(Node(identifier=nid), _unit([1, 1, 1, 1, 2]), 0, p, self.deg(p))
+
+    def _add_parent(self, nid):
+        from pytreenet.core.node import Node
+        t = _unit([1, 1, 1, 1, 2])       # add_parent_to_root expects a node already linked to its tensor (as in tests/test_ttn.py)
+        self.obj.add_parent_to_root(self.deg(self.root), Node(tensor=t, identifier=nid), t, 0)
+
+    def grow(self):
+        rng = self.rng
+        if rng.random() < 0.25 and self.deg(self.root) < 4:
+            nid = self._new()
+            self._add_parent(nid)
+            self.parent[self.root] = nid
+            self.parent[nid] = None
+            self.root = nid
+            return f"add_parent_to_root({nid!r})"
+        p = rng.choice([x for x in self.parent if self.deg(x) < 4])
+        nid = self._new()
+        self._add_child(nid, p)
+        self.parent[nid] = p
+        return f"add_child_to_parent({nid!r}, parent {p!r})"
+
+
+class _GrowStruct(_GrowTTN):
+    """bare TreeStructure of GraphNodes"""
+
+    def __init__(self, rng):
+        _Grower.__init__(self, rng)
+        from pytreenet.core.tree_structure import TreeStructure
+        self.pre = random_prefix(rng)
+        self.k = 0
+        self.obj = TreeStructure()
+        self.root = self._new()
+        self._add_root(self.root)
+        self.parent[self.root] = None
+
+    def _add_root(self, nid):
+        from pytreenet.core.graph_node import GraphNode
+        self.obj.add_root(GraphNode(identifier=nid))
+
+    def _add_child(self, nid, p):
+        from pytreenet.core.graph_node import GraphNode
+        self.obj.add_child_to_parent(GraphNode(identifier=nid), p)
+
+    def _add_parent(self, nid):
+        from pytreenet.core.graph_node import GraphNode
+        self.obj.add_parent_to_root(GraphNode(identifier=nid))
+
+
+class _GrowStar(_Grower):
+    """StarTreeTensorNetwork / StarTreeTensorState via add_center_node / add_chain_node"""
+
+    def __init__(self, rng):
+        super().__init__(rng)
+        from pytreenet.special_ttn.star import StarTreeTensorNetwork, StarTreeTensorState
+        cls = rng.choice([StarTreeTensorNetwork, StarTreeTensorState])
+        if rng.random() < 0.5:
+            self.cid = "central" if cls is StarTreeTensorState else "center"
+            self.pre = "node"
+            self.obj = cls()
+        else:
+            self.cid, self.pre = random_prefix(rng, ["center", "central", "c"]) + "C", random_prefix(rng)
+            self.obj = cls(self.cid, self.pre)
+        self.maxch = rng.choice([1, 2, 3, 4])
+        self.lens = []
+        self.obj.add_center_node(_unit([1] * self.maxch + [2]))
+        self.parent[self.cid] = None
+
+    def grow(self):
+        cand = list(range(len(self.lens))) + ([len(self.lens)] if len(self.lens) < self.maxch else [])
+        c = self.rng.choice(cand)
+        self.obj.add_chain_node(_unit([1, 1, 2]), c)
+        if c == len(self.lens):
+            self.lens.append(0)
+        nid = f"{self.pre}{c}_{self.lens[c]}"
+        self.parent[nid] = self.cid if self.lens[c] == 0 else f"{self.pre}{c}_{self.lens[c] - 1}"
+        self.lens[c] += 1
+        return f"add_chain_node(chain {c}) -> {nid!r}"
+
+
+class _GrowMPS(_Grower):
+    """MatrixProductTree / MatrixProductState via add_root / attach_node_right_end / attach_node_left_end"""
+
+    def __init__(self, rng):
+        super().__init__(rng)
+        from pytreenet.special_ttn.mps import MatrixProductTree, MatrixProductState
+        from pytreenet.core.node import Node
+        self.pre = random_prefix(rng)
+        self.obj = rng.choice([MatrixProductTree, MatrixProductState])()
+        self.k = 1
+        nid = f"{self.pre}0"
+        self.obj.add_root(Node(identifier=nid), _unit([1, 1, 2]))
+        self.parent[nid] = None
+        self.left = self.right = nid
+
+    def grow(self):
+        from pytreenet.core.node import Node
+        nid = f"{self.pre}{self.k}"
+        self.k += 1
+        if self.rng.random() < 0.7:
+            self.obj.attach_node_right_end(Node(identifier=nid), _unit([1, 1, 2]))
+            self.parent[nid] = self.right
+            self.right = nid
+            return f"attach_node_right_end({nid!r})"
+        self.obj.attach_node_left_end(Node(identifier=nid), _unit([1, 1, 2]))
+        self.parent[nid] = self.left
+        self.left = nid
+        return f"attach_node_left_end({nid!r})"
+
+
+class _GrowFork(_Grower):
+    """ForkTreeTensorNetwork via add_main_chain_node / add_sub_chain_node"""
+
+    def __init__(self, rng):
+        super().__init__(rng)
+        from pytreenet.special_ttn.fttn import ForkTreeTensorNetwork
+        if rng.random() < 0.5:
+            self.mp, self.sp = "main", "sub"
+            self.obj = ForkTreeTensorNetwork()
+        else:
+            self.mp, self.sp = random_prefix(rng, ["main", "m"]) + "M", random_prefix(rng, ["sub", "s"]) + "S"
+            self.obj = ForkTreeTensorNetwork(self.mp, self.sp)
+        self.subl = []
+        self._main()
+
+    def _main(self):
+        i = len(self.subl)
+        self.obj.add_main_chain_node(_unit([1, 1, 1, 2]))
+        self.parent[f"{self.mp}{i}"] = None if i == 0 else f"{self.mp}{i - 1}"
+        self.subl.append(0)
+        return f"add_main_chain_node() -> {self.mp}{i}"
+
+    def grow(self):
+        if self.rng.random() < 0.4:
+            return self._main()
+        i = self.rng.randrange(len(self.subl))
+        j = self.subl[i]
+        self.obj.add_sub_chain_node(_unit([1, 1, 2]), i)
+        self.parent[f"{self.sp}{i}_{j}"] = f"{self.mp}{i}" if j == 0 else f"{self.sp}{i}_{j - 1}"
+        self.subl[i] += 1
+        return f"add_sub_chain_node(subchain {i}) -> {self.sp}{i}_{j}"
+
+
+class _GrowPairs(_Grower):
+    """a caller-owned list of nearest-neighbour pairs: the SAME list object is extended between the builds"""
+    tree = False
+
+    def __init__(self, rng):
+        super().__init__(rng)
+        self.pre = random_prefix(rng)
+        self.obj = []
+        self.pairs = []          # the harness's own copy, as site indices
+        self.parent[f"{self.pre}0"] = None
+        self.grow()
+
+    def grow(self):
+        k = len(self.parent)
+        p = self.rng.randrange(k)
+        a, b = (p, k) if self.rng.random() < 0.5 else (k, p)
+        self.parent[f"{self.pre}{k}"] = f"{self.pre}{p}"
+        self.pairs.append((a, b))
+        self.obj.append((f"{self.pre}{a}", f"{self.pre}{b}"))
+        return f"pairs.append(({self.pre}{a}, {self.pre}{b}))"
+
+
+class _GrowGrid(_Grower):
+    """two-dimensional grids of growing size with one prefix, tuple form or identifier array"""
+    tree = False
+    maxn = 9
+
+    def __init__(self, rng):
+        super().__init__(rng)
+        self.pre = random_prefix(rng)
+        self.r, self.c = rng.choice([(1, 2), (2, 1), (2, 2), (1, 3)])
+        self.form = rng.choice(["tuple", "tuple", "array"])
+
+    def full(self):
+        return min((self.r + 1) * self.c, self.r * (self.c + 1)) > self.maxn
+
+    def grow(self):
+        opts = [(self.r + 1, self.c), (self.r, self.c + 1)]
+        self.r, self.c = self.rng.choice([o for o in opts if o[0] * o[1] <= self.maxn])
+        return f"grid -> {self.r} x {self.c}"
+
+    def sites(self):
+        return [f"{self.pre}{i}_{j}" for i in range(self.r) for j in range(self.c)]
+
+    def edges(self):
+        return [(f"{self.pre}{i}_{j}", f"{self.pre}{i2}_{j2}") for i in range(self.r) for j in range(self.c)
+                for (i2, j2) in ((i + 1, j), (i, j + 1)) if i2 < self.r and j2 < self.c]
+
+    def structure(self):
+        if self.form == "tuple":
+            return (self.pre, self.r, self.c)
+        g = np.empty((self.r, self.c), dtype=object)
+        for i in range(self.r):
+            for j in range(self.c):
+                g[i, j] = f"{self.pre}{i}_{j}"
+        return g
+
+
+GROWERS = {"ttn": _GrowTTN, "struct": _GrowStruct, "star": _GrowStar, "mps": _GrowMPS, "fork": _GrowFork,
+           "pairs": _GrowPairs, "grid": _GrowGrid}
+
+
+
 class C19(Prop):
     id = "C19"
     title = "special-topology constructors, from_tensor, Ising builders"
@@ -233,7 +530,14 @@ class C19(Prop):
             "invalid); stars (0-3 chains of length 0-3, dimension 1..3, every state value; random stars with interleaved call orders); forks "
             "(width, height 1..4, bond 1..3; random call orders); binary trees with 1..16 (thorough 40) physical sites; TTNO.from_tensor on random "
             "trees (1-5 nodes), random leg assignments, site dimensions 1..3, QR/SVD/tSVD, full- and low-rank operators; Ising / flipped Ising on "
-            "random trees, pair lists, grids (tuple and array form) up to 6x6, exact chains up to 8 sites. non-trivial = at least 2 nodes / sites")
+            "random trees, pair lists, grids (tuple form, object array, numpy string array) up to 6x6, exact chains up to 8 sites. Identifier spellings: the "
+            "prefixes of chains, stars and grids are drawn from the usual short ones, the empty string and arbitrary strings of 1..40 characters (letters, digits, "
+            "punctuation, blanks, non-ASCII). Histories (kind ising_history): ONE object (TreeTensorNetworkState, bare TreeStructure, star, MPS, fork, a caller-owned "
+            "pair list, a grid prefix) is built, then 2-4 times: grown by 0-3 steps through the public methods (add_child_to_parent, add_parent_to_root, add_chain_node, "
+            "attach_node_right/left_end, add_main/sub_chain_node, list.append, larger grid) and handed to ising_model / flipped_ising_model / *_2D / "
+            "create_nearest_neighbour_hamiltonian / nearest_neighbours() with fresh couplings; returned lists and Hamiltonians are mutated by the caller in between; "
+            "every build is judged against the harness's own record of the sites and bonds it asked for, and tied to the model on the structure the object reports at "
+            "that moment. non-trivial = at least 2 nodes / sites (histories: at least 2 builds)")
     clauses = [
         ("F", "MPS from_tensor_list (all lengths, all root positions, all tensor lists on which no call raises): node dictionary in closed form: chain site0..site(L-1), "
               "dictionary order, neighbours i-1/i+1, requested root, parents toward the root, tensor axis 0 -> left neighbour, axis 1 -> right neighbour (site 0: axis 0), "
@@ -269,6 +573,9 @@ class C19(Prop):
         # [/ext-C19F]
         ("V", "contraction of the produced networks equals the specified tensor chain / star / fork / product state (dense einsum oracle, exact on integer tensors), independent of root and "
               "padding; from_tensor contracts to the input operator; model builders equal the Kronecker sums; exact dense builders agree with the symbolic ones"),
+        ("V", "histories: every model build on an object that was grown (and already used for earlier builds) equals -J sum_<ij> A_i A_j - g sum_i B_i over the sites and bonds "
+              "the object has at that moment (term-level: one field term per site, one coupling per bond; dense Kronecker sum up to 9 sites), independent of earlier builds, "
+              "earlier nearest_neighbours() calls and caller-side mutation of returned lists / Hamiltonians; documented identifiers hold for arbitrary prefixes up to 40 characters"),
     ]
     trusted_base = ["NumPy reshape/pad/zeros/kron/einsum; LAPACK QR/SVD in from_tensor (validated numerically through the dense oracle)",
                     # [ext-C19F]
@@ -280,6 +587,9 @@ class C19(Prop):
                     "Python set order in _abstract_ising_model: the single-site block is compared as a multiset"]
     assumptions = ["constructors are called with parent_leg=None (the default first-open-leg rule); explicit parent legs are not modelled",
                    "from_tensor: leg_dict is a bijection nodes -> 0..n-1 and the reference tree has unique identifiers",
+                   "histories grow objects only through the public add_* / attach_* methods with qubit tensors carrying spare dimension-1 legs (first-open-leg rule); "
+                   "add_parent_to_root is called with a node already linked to its tensor, as the library's own tests do; the Ising term lists of the Coq model are "
+                   "stateless functions of the current structure, so the tie of a history is the per-build tie on the structure read off the object",
                    # [ext-C19F]
                    "from_tensor store model: the input tensor is an opaque atom (atom 0, axis a = wire a), the Q / R factors are opaque atoms related to it only through the recorded "
                    "definitions; the bond dimensions the truncated SVD keeps are inputs of the model (read off the code's result); QR is modelled with the default mode REDUCED"]
@@ -312,7 +622,7 @@ class C19(Prop):
                     bud = Budget()
                     opens = [[bud.pick(rng, [phys]) if k == 0 else bud.pick(rng, [1, 2]) for k in range(nopen[i])] for i in range(L)]
                     cases.append({"kind": "mps_list", "bonds": bonds, "opens": opens, "root": r, "seed": sd(),
-                                  "prefix": rng.choice(["site", "site", "q"]), "mal": None})
+                                  "prefix": random_prefix(rng, ["site", "site", "q"]), "mal": None})
         for _ in range((40 if th else 8) * budget_scale):
             L = rng.randrange(2, 7)
             bonds = [rng.choice([1, 2, 3]) for _ in range(L - 1)]
@@ -346,7 +656,7 @@ class C19(Prop):
             for nch in range(0, 4):
                 for cl in range(0, 4):
                     for sv in range(dim):
-                        cases.append({"kind": "star_cps", "sv": sv, "dim": dim, "clen": cl, "nch": nch, "prefix": rng.choice(["site", "arm"])})
+                        cases.append({"kind": "star_cps", "sv": sv, "dim": dim, "clen": cl, "nch": nch, "prefix": random_prefix(rng, ["site", "arm"])})
         for (sv, dim, cl, nch) in [(-1, 2, 1, 1), (2, 2, 1, 1), (0, 0, 1, 1), (0, 2, -1, 1), (0, 2, 1, -1), (3, 3, 2, 2)]:
             cases.append({"kind": "star_cps", "sv": sv, "dim": dim, "clen": cl, "nch": nch, "prefix": "site"})
         # --- random stars / forks through the add_* methods --------------------------------------------
@@ -393,12 +703,16 @@ class C19(Prop):
             grid_sizes = [(r, c) for (r, c) in grid_sizes if r * c <= 12 or (r + c + ctx.seed) % 3 == 0]
         for (r, c) in grid_sizes:
             cases.append({"kind": "ising_grid", "rows": r, "cols": c, "flipped": (r + c) % 2 == 1, "J": dyadic(rng), "g": dyadic(rng),
-                          "form": rng.choice(["tuple", "array"]), "prefix": rng.choice(["s", "node"])})
+                          "form": rng.choice(["tuple", "tuple", "array", "array_str"]), "prefix": random_prefix(rng, ["s", "node"])})
         for (r, c) in [(0, 2), (2, 0), (-1, 1)]:
             cases.append({"kind": "ising_grid", "rows": r, "cols": c, "flipped": False, "J": 1.0, "g": 0.5, "form": "tuple", "prefix": "s"})
         for n in range(1, 9):
             for fl in (False, True):
                 cases.append({"kind": "exact", "n": n, "flipped": fl, "J": dyadic(rng), "g": dyadic(rng)})
+        # --- histories: one object / list / prefix, model builds interleaved with growth through the public methods ------
+        objs = sorted(GROWERS)
+        for j in range((420 if th else 42) * budget_scale):
+            cases.append({"kind": "ising_history", "seed": sd(), "obj": objs[j % len(objs)], "builds": rng.choice([2, 2, 3, 4])})
         return cases
 
     @staticmethod
@@ -416,7 +730,7 @@ class C19(Prop):
                 bonds[rng.randrange(nb)] = 0
         else:
             bonds = [1] * (nb + rng.choice([1, 2]))
-        return {"kind": "mps_cps", "sv": sv, "dim": dim, "n": n, "root": r, "bonds": bonds, "prefix": "site"}
+        return {"kind": "mps_cps", "sv": sv, "dim": dim, "n": n, "root": r, "bonds": bonds, "prefix": random_prefix(rng, ["site"])}
 
     def nontrivial(self, case):
         k = case["kind"]
@@ -440,6 +754,8 @@ class C19(Prop):
             return case["rows"] * case["cols"] >= 2
         if k == "exact":
             return case["n"] >= 2
+        if k == "ising_history":
+            return case["builds"] >= 2
         return True
 
     def distribution(self, cases):
@@ -452,6 +768,13 @@ class C19(Prop):
                 c[f"from_tensor:{x['mode']}"] += 1
             if x.get("mal"):
                 c[f"{x['kind']}:malformed"] += 1
+            if x["kind"] == "ising_history":
+                c[f"ising_history:{x['obj']}"] += 1
+            if isinstance(x.get("prefix"), str):
+                n = len(x["prefix"])
+                c["prefix_len:" + ("0" if n == 0 else "1-8" if n <= 8 else "9-16" if n <= 16 else "17-40")] += 1
+            if x["kind"] == "ising_grid":
+                c[f"ising_grid:{x['form']}"] += 1
         c.update(getattr(self, "_stats", {}))
         return dict(c)
 
@@ -881,7 +1204,7 @@ class C19(Prop):
                 ref = loc
                 for _ in range(len(ids) - 1):
                     ref = np.multiply.outer(ref, loc)
-                if d is not None and (d.shape != ref.shape or not np.array_equal(d, ref)):
+                if d is not None and not same_values(d, ref):
                     v = "contraction is not the product of the local state over all nodes"
         ob["viol"] = v
         return ob
@@ -960,8 +1283,9 @@ class C19(Prop):
                 for _ in range(n - 1):
                     ref = np.multiply.outer(ref, pt[0])
                 ref = ref.reshape(ref.shape + (1,) * (n - 1))
-                if d is not None and (d.shape != ref.shape or not np.array_equal(d, ref)):
-                    v = f"contraction is not the product of the physical tensors (shape {d.shape} vs {ref.shape})"
+                if d is not None and not same_values(d, ref):
+                    v = (f"contraction is not the product of the physical tensors (shape {d.shape} vs {ref.shape}"
+                         + (f"; max relative deviation {float(np.max(np.abs(d - ref) / np.maximum(np.abs(ref), 1e-300))):.3g}" if d.shape == ref.shape else "") + ")")
         ob["viol"] = v
         return ob
 
@@ -1122,11 +1446,13 @@ class C19(Prop):
         r, c, pre = case["rows"], case["cols"], case["prefix"]
         f = flipped_ising_model_2D if case["flipped"] else ising_model_2D
         ob = {}
-        if case["form"] == "array" and r >= 1 and c >= 1:
+        if case["form"] in ("array", "array_str") and r >= 1 and c >= 1:
             grid = np.empty((r, c), dtype=object)
             for i in range(r):
                 for j in range(c):
                     grid[i, j] = f"{pre}{i}_{j}"
+            if case["form"] == "array_str":          # numpy string array, item size chosen by numpy to fit every identifier
+                grid = np.array(grid.tolist())
         else:
             grid = (pre, r, c)
         try:
@@ -1183,6 +1509,112 @@ class C19(Prop):
                 if not np.allclose(Hs, H, atol=1e-12):
                     v = "symbolic chain model and exact dense Hamiltonian disagree"
         ob["viol"] = v
+        return ob
+
+    # ---- histories ----------------------------------------------------------------------------------------
+    def _impl_ising_history(self, case):
+        from pytreenet.operators.models import ising_model, flipped_ising_model, ising_model_2D, flipped_ising_model_2D
+        rng = random.Random(case["seed"])
+        kind = case["obj"]
+        ob = {"stages": [], "log": []}
+        log = ob["log"]
+        try:
+            G = GROWERS[kind](rng)
+        except Exception as e:  # noqa
+            ob["error"] = exc_str(e)
+            ob["viol"] = f"valid construction of the initial {kind} object raised {exc_str(e)}"
+            return ob
+        self._stats[f"history:{kind}"] += 1
+        nb = case["builds"]
+        for b in range(nb):
+            ng = rng.choice([0, 1, 1, 2, 3]) if b == 0 else rng.choice([0, 1, 1, 2, 2, 3])
+            for _ in range(ng):
+                if G.full():
+                    break
+                try:
+                    log.append(G.grow())
+                except Exception as e:  # noqa
+                    ob["error"] = exc_str(e)
+                    ob["viol"] = f"after {log}: a valid growth step of the {kind} object raised {exc_str(e)}"
+                    return ob
+            what = "ising" if (b == nb - 1 or kind == "grid") else rng.choice(["ising", "ising", "ising", "nn", "nnlist"])
+            if what == "nnlist" and not G.tree:
+                what = "nn"
+            sites, edges = G.sites(), G.edges()
+            where = f"build {b + 1} of {nb} on one {kind} object after {list(log)}"
+            self._stats[f"history_stage:{what}"] += 1
+            if what == "nnlist":
+                try:
+                    nn = G.obj.nearest_neighbours()
+                except Exception as e:  # noqa
+                    ob["viol"] = f"{where}: nearest_neighbours() raised {exc_str(e)}"
+                    return ob
+                if sorted(map(tuple, nn)) != sorted(edges):
+                    ob["viol"] = f"{where}: nearest_neighbours() = {nn}, the (parent, child) bonds of the tree are {edges}"
+                    return ob
+                nn.append(("x", "y"))          # the caller owns the returned list
+                del nn[:-1]
+                continue
+            if what == "nn":
+                v = nn_two_operator_check(G.structure(), edges if G.tree else list(G.obj), sites, rng.randrange(10 ** 9))
+                if v:
+                    ob["viol"] = f"{where}: {v}"
+                    return ob
+                continue
+            fl = rng.random() < 0.5
+            st = {"what": "ising", "flipped": fl, "J": dyadic(rng), "g": dyadic(rng), "nlog": len(log), "tie": False}
+            if kind == "grid":
+                f = flipped_ising_model_2D if fl else ising_model_2D
+                st.update({"rows": G.r, "cols": G.c, "prefix": G.pre})
+            else:
+                f = flipped_ising_model if fl else ising_model
+            try:
+                ham = f(G.structure(), st["g"], st["J"])
+            except Exception as e:  # noqa
+                ob["error"] = exc_str(e)
+                ob["viol"] = f"{where}: builder raised {exc_str(e)}"
+                return ob
+            st.update(self._ham_obs(ham))
+            ob["stages"].append(st)
+            # inputs of the model tie: the structure as the library object reports it at this moment
+            if G.tree:
+                try:
+                    names = list(G.obj.nodes)
+                    idx = {k: i for i, k in enumerate(names)}
+                    st["children"] = [[idx[c] for c in G.obj.nodes[k].children] for k in names]
+                    st["root"] = idx[G.obj.root_id]
+                    st["names"] = names
+                    st["tie"] = True
+                except Exception:  # noqa  (inconsistent object: reported by the oracle below)
+                    pass
+            elif kind == "pairs":
+                st["names"] = list(sites)
+                st["pairs"] = [list(p) for p in G.pairs]
+                st["tie"] = True
+            else:
+                st["tie"] = True
+            # oracle: the harness's own record of sites and bonds
+            v = None
+            if G.tree and sorted(G.obj.nodes) != sorted(sites):
+                v = f"the object has the identifiers {sorted(G.obj.nodes)}, documented {sorted(sites)}"
+            if v is None:
+                singles = Counter(t[2][0][0] for t in st["terms"] if len(t[2]) == 1)
+                doubles = Counter(frozenset(x[0] for x in t[2]) for t in st["terms"] if len(t[2]) == 2)
+                if singles != Counter(sites):
+                    v = f"single-site terms on {sorted(singles.elements())}, expected one per site {sorted(sites)}"
+                elif doubles != Counter(frozenset(e) for e in edges):
+                    v = (f"two-site terms on {sorted(tuple(sorted(d)) for d in doubles.elements())}, the bonds <ij> are "
+                         f"{sorted(tuple(sorted(e)) for e in edges)}")
+                else:
+                    v = self._ising_oracle(ham, sites, edges, st)
+            if v:
+                ob["viol"] = f"{where}: {v}"
+                return ob
+            if rng.random() < 0.5:             # the caller owns the returned Hamiltonian
+                ham.terms.clear()
+                ham.conversion_dictionary.clear()
+                ham.coeffs_mapping.clear()
+        ob["viol"] = None
         return ob
 
     # -----------------------------------------------------------------------------------------------
@@ -1247,7 +1679,21 @@ class C19(Prop):
             return f"ising_of_grid ({coq_z(c['rows'])})%Z ({coq_z(c['cols'])})%Z"
         if k == "exact":
             return f"exact_ising_terms {coq_nat(c['n'])}"
+        if k == "ising_history":
+            items = []
+            for st in self._tied_stages(ob):
+                if c["obj"] == "grid":
+                    items.append(f"ising_of_grid ({coq_z(st['rows'])})%Z ({coq_z(st['cols'])})%Z")
+                elif c["obj"] == "pairs":
+                    items.append("ising_of_pairs Nat.eqb " + coq_list(st["pairs"], lambda p: f"({coq_nat(p[0])}, {coq_nat(p[1])})"))
+                else:
+                    items.append(f"ising_of_tree {rtree_coq(st['children'], st['root'])} {nat_list(range(len(st['names'])))}")
+            return "[" + "; ".join(items) + "]" if items else None
         return None
+
+    @staticmethod
+    def _tied_stages(ob):
+        return [st for st in ob.get("stages", []) if st.get("tie")]
 
     # -----------------------------------------------------------------------------------------------
     # correspondence
@@ -1477,6 +1923,27 @@ class C19(Prop):
             return msg
         pre = case["prefix"]
         return self._cmp_ham(case, ob, self._terms_py(mo[1], lambda ij: f"{pre}{ij[0]}_{ij[1]}", case["flipped"]), True)
+
+    def _cmp_ising_history(self, case, ob, mo):
+        from lib import unsome
+        sts = self._tied_stages(ob)
+        if len(sts) != len(mo):
+            return f"{len(sts)} builds observed, {len(mo)} modelled"
+        for st, m in zip(sts, mo):
+            if case["obj"] == "grid":
+                m = unsome(m)
+                if m is None:
+                    return f"{st['rows']} x {st['cols']} grid: implementation accepts where the model rejects"
+                pre = st["prefix"]
+                d = self._cmp_ham(st, st, self._terms_py(m, lambda ij: f"{pre}{ij[0]}_{ij[1]}", st["flipped"]), True)
+            else:
+                names = st["names"]
+                d = self._cmp_ham(st, st, self._terms_py(m, lambda k: names[k], st["flipped"]), case["obj"] == "pairs")
+            if d:
+                return f"build after {st['nlog']} growth steps ({ob['log'][:st['nlog']]}): {d}"
+        if "error" in ob:
+            return f"implementation raised {ob['error']}"
+        return None
 
     def _cmp_exact(self, case, ob, mo):
         if "error" in ob:
